@@ -55,15 +55,15 @@ CHECKS["C15"] = ("proof",
     "on real tables + real-runtime exploration under catch_unwind/watchdog", "DESIGN.md §6 C15")
 
 CHECKS["C12"] = ("proof",
-    "Coq theorems (token-level LR model, every table passing complete_b/sound_b): error_no_continuation (an error at "
-    "token k means no sentence starts with the first k+1 tokens; at the end of input: the input is not a sentence), "
-    "sentence_never_errors, expected_nonempty, error_index_in_range. The validators are kernel-evaluated on the real "
-    "tables; the real LRParser and the real GlrParser are run on mutated non-sentences rendered with random "
-    "whitespace/newlines/multi-byte spaces and the reported byte offset, line/col and expected list are compared with "
-    "an exact Earley viable-prefix oracle; LR outcomes also equal the byte-level model's. Partial: the 'no late "
-    "detection' half (the k tokens before the error form a viable prefix) is stated (error_prefix_viable_statement) but "
-    "not proved; it is decided by the Earley oracle on the run's inputs; the GLR half is exploration only.",
-    "machine-checked proof in Coq (error-position theorems over validated tables) + kernel-evaluated validators + "
+    "Coq theorem error_is_first_offender (token-level LR model, every table passing sound_b, complete_b and viable_b): an "
+    "error at token k means (i) the k tokens before it begin some sentence (no late detection: error_prefix_viable) and "
+    "(ii) no sentence begins with the first k+1 tokens (error_no_continuation; at the end of input: the input is not a "
+    "sentence); plus sentence_never_errors, expected_nonempty, error_index_in_range. The validators are kernel-evaluated on "
+    "the real tables; the real LRParser and the real GlrParser are run on mutated non-sentences rendered with random "
+    "whitespace/newlines/multi-byte spaces and the reported byte offset, line/col and expected list are compared with an "
+    "exact Earley viable-prefix oracle; LR outcomes also equal the byte-level model's. Partial: the GLR half is "
+    "exploration only; byte offsets/line/col rest on the byte-level correspondence and the position theorems of C13.",
+    "machine-checked proof in Coq (first-offending-token theorem over validated tables) + kernel-evaluated validators + "
     "real LR/GLR runs against an Earley viable-prefix oracle", "DESIGN.md §6 C12")
 
 CHECKS["C14"] = ("proof",
